@@ -24,6 +24,7 @@ func checkC07(c *Ctx) {
 	checkC07FieldMeta(c)
 	checkC07FieldClosures(c)
 	checkC07EscapingClosures(c)
+	checkC07CacheAppend(c)
 	checkSerializerFresh(c, nil, c.Rule("C07.pool-fresh", "a sync.Pool New closure hands out only objects created inside it (plus the builder's receiver/parameters)", 2))
 	checkC07Globals(c)
 	checkC07Callbacks(c)
